@@ -310,6 +310,8 @@ def _op_func(repo, p, struct_members):
     if selfc:
         members = p.get('members') or struct_members.get(selfc, [])
         body, n0 = re.subn(r'\bthis\s*->\s*', 'self->', body)
+        body, n00 = re.subn(r'\bthis\b', 'self', body)      # bare `this` (pointer value); `*this` becomes `*self`
+        n0 += n00
         locals_ = set(re.findall(r'[A-Za-z_]\w*', params)) | set(p.get('locals', []))
         cnt = 0
         for mem in members:
